@@ -1,7 +1,7 @@
 """C13 - local-maximum labelling follows steepest ascent for every thread count."""
 import numpy as np
 from hypothesis import strategies as st
-from vf import oracles
+from vf import oracles, gens
 from vf.runner import hyp_run, run_cases, guard, fail, exc_failure
 
 RULE = ("tie-free images >= 3x3: random permutations of distinct values (noisy), sums of 1-4 Gaussians plus a distinct "
@@ -207,6 +207,7 @@ def spcases(draw):
     c = draw(cases(maxdim=48))
     c["gap"] = draw(st.sampled_from([0.0, 0.1, 0.3, 0.6]))
     c["mseed"] = draw(st.integers(0, 2 ** 31 - 1))
+    c["offset"] = draw(st.sampled_from(["none", "none", "mid", "all"]))
     return c
 
 
@@ -227,6 +228,10 @@ def check_sparse(case, rec=None):
     i = i.astype(np.uint16)
     j = j.astype(np.uint16)
     v = dense[mask].astype(np.float32)
+    # the listed values may be negative (background subtracted data): a constant shift of the listed pixels does not
+    # change which listed neighbour is the largest, and pixels that are not listed never attract anything
+    off = {"none": 0.0, "mid": float(np.floor(np.median(v))) + 0.5, "all": float(v.max()) + 1.0}[case.get("offset", "none")]
+    v = (v - np.float32(off)).astype(np.float32)
     nnz = len(v)
     # expected partition: reference labels of listed pixels (all > 0: paths cannot leave the mask)
     exp = ref[mask]
@@ -289,18 +294,41 @@ def check_sparse(case, rec=None):
         di = np.zeros((ns, nf))
         di[i, j] = vi
         sm = ndimage.convolve(di, np.array([[1., 2, 1], [2, 4, 2], [1, 2, 1]]) / 16.0, mode="constant")[i, j]
-        sc = object.__new__(sparseframe.SparseScan)
-        sc.names = ["row", "col", "intensity"]
-        sc.nnz = np.array([nnz, nnz])
-        sc.ipt = sparseframe.nnz_to_pointer(sc.nnz)
-        sc.row = np.concatenate([i, i])
-        sc.col = np.concatenate([j, j])
-        sc.intensity = np.concatenate([vi, vi])
+        import os
+        path = os.path.join(os.environ.get("VERIF_TMP", "."), "c13_scan_%d.h5" % os.getpid())
+        gens.write_sparse_scan(path, [(i, j, vi), (i[:0], j[:0], vi[:0]), (i, j, vi)], (ns, nf),
+                               omega=[0.0, 1.0, 2.0], dty=[0.0, 0.0, 0.0])
+        ok, sc = guard(gens.read_sparse_scan, path)          # a real scan object, read from a file as users do
+        os.remove(path)
+        if not ok:
+            return fails + [exc_failure("SparseScan()", sc)]
         keep = sc.intensity.copy()
-        for step, smooth in enumerate((False, True, False, True)):
-            ok, e = guard(sc.lmlabel, 0, True, smooth)
+        for step, (smooth, countall) in enumerate(((False, True), (True, True), (False, False), (True, False),
+                                                   (False, True))):
+            ok, e = guard(sc.lmlabel, 0, countall, smooth)
             if not ok:
                 fails.append(exc_failure("SparseScan.lmlabel(smooth=%s) step %d" % (smooth, step), e))
+                break
+            # what the frame views hand out (used by props / pairrow / pairscans) is the current labelling
+            ok, f0 = guard(sc.getframe, 0)
+            ok2, f2 = guard(sc.getframe, 2)
+            if not (ok and ok2):
+                fails.append(exc_failure("SparseScan.getframe", f0 if not ok else f2))
+                break
+            if sc.getframe(1) is not None:
+                fails.append(fail("history", "getframe of the empty frame is not None", fn="getframe"))
+            if "labels" in f0.pixels and not (np.array_equal(f0.pixels["labels"], sc.labels[:nnz]) and
+                                              np.array_equal(f2.pixels["labels"], sc.labels[nnz:]) and
+                                              np.array_equal(f0.pixels["intensity"], keep[:nnz])):
+                fails.append(fail("history", "step %d of a labelling history (lmlabel smooth=%s countall=%s): the frames "
+                                  "handed out by getframe do not carry the scan's current labels" %
+                                  (step, smooth, countall), fn="getframe"))
+                break
+            exp_second = sc.labels[:nnz] + (sc.nlabels[0] if countall else 0)
+            if not np.array_equal(sc.labels[nnz:], exp_second):
+                fails.append(fail("history", "step %d (countall=%s): labels of the second non-empty frame are not those "
+                                  "of the first %s" % (step, countall, "offset by its count" if countall else
+                                                       "(numbering restarts per frame)"), fn="lmlabel"))
                 break
             if not np.array_equal(sc.intensity, keep):
                 fails.append(fail("history", "SparseScan.lmlabel(smooth=%s) at step %d of the history modified the "
@@ -314,7 +342,9 @@ def check_sparse(case, rec=None):
             if not smooth and np.array_equal(vi, v):
                 cmp("SparseScan.lmlabel (history step %d)" % step, int(sc.nlabels[0]), sc.labels[:nnz])
     if rec is not None:
-        rec.case(case, case["gap"] > 0 and nexp >= 2, ["sparse", "gap:%g" % case["gap"]])
+        rec.case(case, case["gap"] > 0 and nexp >= 2, ["sparse", "gap:%g" % case["gap"],
+                                                          "values:" + {"none": "positive", "mid": "mixed_sign",
+                                                                       "all": "negative"}[case.get("offset", "none")]])
     return fails
 
 
